@@ -260,10 +260,14 @@ pub struct Gen {
     pub nty: u64,
     pub ndy: u64,
     pub density: u64,
+    /// every system of the case is registered under the empty name (the name map stays empty,
+    /// so `is_empty()` / `num_systems()` say "no systems")
+    pub all_unnamed: bool,
 }
 impl Gen {
     pub fn new(rng: Rng, cfg: GenCfg) -> Gen {
-        let mut g = Gen { rng, cfg, next_tag: 0, nty: 1, ndy: 1, density: 3 };
+        let mut g = Gen { rng, cfg, next_tag: 0, nty: 1, ndy: 1, density: 3, all_unnamed: false };
+        g.all_unnamed = g.rng.chance(8);
         g.nty = 1 + g.rng.below(NTY as u64);
         g.ndy = 1 + g.rng.below(if g.nty <= 2 { NDY } else { 2 });
         g.density = 3 + g.rng.below(6);
@@ -271,6 +275,9 @@ impl Gen {
     }
     fn name(&mut self, tag: usize) -> String {
         let c = self.rng.below(100);
+        if self.all_unnamed {
+            return String::new();
+        }
         if c < self.cfg.p_empty_name {
             String::new()
         } else if c < self.cfg.p_empty_name + self.cfg.p_odd_name {
